@@ -1,5 +1,5 @@
 (* C06 — Bit-fields partition their storage unit exactly, in endian-defined order. *)
-From VF Require Import Model.Writer Proofs.BitsCorrect Proofs.BitRun Proofs.BitStruct Proofs.CodecCorrect Proofs.RoundTrip Gen.GeneratedOk.
+From VF Require Import Model.Writer Proofs.BitsCorrect Proofs.BitRun Proofs.BitStruct Proofs.CodecCorrect Proofs.RoundTrip Proofs.BitLayout Gen.GeneratedOk.
 Open Scope list_scope. Open Scope Z_scope.
 
 (* One BitBuffer.read step inside a storage unit (same storage type, enough bits left):
@@ -92,6 +92,33 @@ Theorem bit_field_structure_dump_big : forall c p al ssz, prim_size_z p = Some s
   = wb_flush c (mkWB (Some (p, al)) (be_pack (ssz * 8) (w :: map snd run) vs) 0).
 Proof. exact write_bit_struct_be. Qed.
 
+(* WHEN a unit starts (the layout, StructureMetaType._calculate_size_and_offsets): an exhausted unit or another storage type opens a NEW unit at the
+   running offset (aligned mode: the next multiple of the field's alignment) and gives the field that offset; otherwise - same storage type, bits
+   left, the field not beyond the unit - the field CONTINUES the open unit and gets no offset of its own; a field that needs more bits than the
+   unit has left (or than a new unit has at all) WOULD STRADDLE and is rejected; a member that is not a bit field closes the unit *)
+Theorem new_unit_on_exhausted_unit_or_other_storage_type : forall (al : bool) (st : lstate) (cur : option Z) (nb : Z) (sp : prim) (sal ssz : Z) (fsize : option Z) (falign : Z),
+  nb <> 0 -> prim_size_z sp = Some ssz -> ls_brem st = 0 \/ storage_eqb (Some (sp, sal)) (ls_btype st) = false ->
+  let off0 := match cur with Some o => Some o | None => ls_off st end in
+  let off1 := match off0 with Some o => if al then Some (o + pad_to o falign) else Some o | None => None end in
+  layout_step al st cur (Some nb) (Some (sp, sal)) fsize falign =
+    if ssz * 8 - nb <? 0 then Err EValue
+    else Ok (mkLS (match off1 with Some o => Some (o + ssz) | None => None end) (Z.max (ls_align st) falign) (Some (sp, sal)) off1 (ssz * 8 - nb), off1).
+Proof. exact new_unit_on_exhausted_or_other_type. Qed.
+Theorem same_storage_type_continues_the_unit_and_a_straddling_field_is_rejected : forall (al : bool) (st : lstate) (cur : option Z) (nb : Z) (sp : prim) (sal bs bo : Z) (fsize : option Z) (falign : Z),
+  nb <> 0 -> ls_brem st <> 0 -> ls_btype st = Some (sp, sal) -> prim_size_z sp = Some bs -> ls_boff st = Some bo ->
+  let off0 := match cur with Some o => Some o | None => ls_off st end in
+  let off1 := match off0 with Some o => if al then Some (o + pad_to o falign) else Some o | None => None end in
+  (forall o, off1 = Some o -> o <= bo + bs) ->
+  layout_step al st cur (Some nb) (Some (sp, sal)) fsize falign =
+    if ls_brem st - nb <? 0 then Err EValue
+    else Ok (mkLS off1 (Z.max (ls_align st) falign) (Some (sp, sal)) (Some bo) (ls_brem st - nb), cur).
+Proof. exact same_unit_continues_or_straddle_is_rejected. Qed.
+Theorem a_member_that_is_no_bit_field_closes_the_unit : forall (al : bool) (st : lstate) (cur : option Z) (fsize : option Z) (falign : Z) lst' o',
+  layout_step al st cur None None fsize falign = Ok (lst', o') -> ls_brem lst' = 0 /\ ls_btype lst' = None.
+Proof. exact plain_member_closes_the_unit. Qed.
+
+Print Assumptions new_unit_on_exhausted_unit_or_other_storage_type.
+Print Assumptions same_storage_type_continues_the_unit_and_a_straddling_field_is_rejected.
 Print Assumptions bit_field_structure_round_trip_little.
 Print Assumptions bit_field_structure_round_trip_big.
 Print Assumptions bit_field_run_little.
@@ -128,3 +155,11 @@ Proof. vm_compute. reflexivity. Qed.
 Example exr_be : read_top (exr_cfg ">") exr_ty [0xB5; 0x6A; 7] 0
   = Ok (VStruct [("a", VInt (0xB56A / 8192)); ("b", VInt ((0xB56A / 16) mod 512)); ("c", VInt (0xB56A mod 16)); ("t", VInt 7)] [("t", 1)], 3).
 Proof. vm_compute. reflexivity. Qed.
+
+(* the unit rules on a definition: uint16 a:9; uint16 b:7 share a unit, uint8 c:3 opens one (other type), uint16 d:12 opens one, uint16 e:5 would straddle it *)
+Example exl_units :
+  layout_struct (ex_cfg "<") false [Fld "a" false u16 (Some 9) None; Fld "b" false u16 (Some 7) None; Fld "c" false (TPrim (PInt 1 false true) 1) (Some 3) None; Fld "d" false u16 (Some 12) None]
+    = Ok (mkLay [Some 0; None; Some 2; Some 3] (Some 5) 2) /\
+  layout_struct (ex_cfg "<") false [Fld "d" false u16 (Some 12) None; Fld "e" false u16 (Some 5) None] = Err EValue /\
+  layout_struct (ex_cfg "<") false [Fld "a" false u16 (Some 17) None] = Err EValue.
+Proof. repeat split; vm_compute; reflexivity. Qed.
